@@ -31,6 +31,9 @@ static char *magic_id = "NEOL";
 static uint32_t driver_id = 0x20260928; /* increment when driver changes */
 static uint64_t config_id = 0;
 static char simul_efun_path[PATH_MAX] = "";	/* the simul_efun file, relative to the mudlib */
+#ifdef NEOLITH_VERIF
+int verif_binaries_loaded = 0;	/* programs that load_binary() returned (verification harness only) */
+#endif
 
 static FILE *crdir_fopen(char *);
 static void patch_out (program_t *, short *, size_t);
@@ -954,6 +957,9 @@ program_t *load_binary (const char *name) {
     }
 
   opt_trace (TT_COMPILE|1, "loaded successfully: %s", file_name);
+#ifdef NEOLITH_VERIF
+  verif_binaries_loaded++;
+#endif
   return prog;
 }
 
